@@ -54,6 +54,10 @@ func WithNoLoggingImpersonation(handler http.Handler, a authorizer.Authorizer, s
 			return
 		}
 		if len(impersonationRequests) == 0 {
+			// nothing is impersonated, but headers of the impersonation family which
+			// are not handled by the gateway (e.g. Impersonate-Uid) must not reach
+			// the upstream, where they would be applied with the gateway's credential
+			deleteImpersonationHeaders(req.Header)
 			handler.ServeHTTP(w, req)
 			return
 		}
@@ -168,16 +172,24 @@ func WithNoLoggingImpersonation(handler http.Handler, a authorizer.Authorizer, s
 		audit.LogImpersonatedUser(ae, newUser)
 
 		// clear all the impersonation headers from the request
-		req.Header.Del(authenticationv1.ImpersonateUserHeader)
-		req.Header.Del(authenticationv1.ImpersonateGroupHeader)
-		for headerName := range req.Header {
-			if strings.HasPrefix(headerName, authenticationv1.ImpersonateUserExtraHeaderPrefix) {
-				req.Header.Del(headerName)
-			}
-		}
+		deleteImpersonationHeaders(req.Header)
 
 		handler.ServeHTTP(w, req)
 	})
+}
+
+// impersonationHeaderPrefix is the common prefix of all impersonation headers:
+// Impersonate-User, Impersonate-Group, Impersonate-Extra-*, Impersonate-Uid, ...
+const impersonationHeaderPrefix = "impersonate-"
+
+// deleteImpersonationHeaders removes every header of the impersonation family,
+// the upstream must only see the impersonation headers generated by the gateway
+func deleteImpersonationHeaders(headers http.Header) {
+	for headerName := range headers {
+		if strings.HasPrefix(strings.ToLower(headerName), impersonationHeaderPrefix) {
+			delete(headers, headerName)
+		}
+	}
 }
 
 func unescapeExtraKey(encodedKey string) string {
